@@ -20,6 +20,7 @@ import (
 	topologyv1alpha1 "github.com/k8stopologyawareschedwg/noderesourcetopology-api/pkg/apis/topology/v1alpha1"
 	corev1 "k8s.io/api/core/v1"
 	apierrors "k8s.io/apimachinery/pkg/api/errors"
+	metav1 "k8s.io/apimachinery/pkg/apis/meta/v1"
 	"k8s.io/apimachinery/pkg/runtime/schema"
 	"sigs.k8s.io/controller-runtime/pkg/client"
 	"sigs.k8s.io/controller-runtime/pkg/reconcile"
@@ -171,11 +172,14 @@ func (st *nrStore) put(kind string, obj client.Object) {
 	obj.SetResourceVersion(strconv.FormatInt(st.rv, 10))
 	key := nrKey(obj)
 	old := st.latest(kind, key)
-	st.hist[kind][key] = append(st.hist[kind][key], nrVer{st.rv, obj})
 	typ := "update"
 	if old == nil {
 		typ = "add"
+		obj.SetCreationTimestamp(metav1.NewTime(time.Now()))
+	} else {
+		obj.SetCreationTimestamp(old.GetCreationTimestamp())
 	}
+	st.hist[kind][key] = append(st.hist[kind][key], nrVer{st.rv, obj})
 	st.pending[kind] = append(st.pending[kind], &nrEvent{kind: kind, typ: typ, key: key, old: old, new: obj, rv: st.rv})
 }
 
